@@ -365,6 +365,10 @@ func (sc *Scenario) judge(ems []em, exhausted, wire bool, st *stats) error {
 	}
 
 	// --- per value: count, step, range / list ---------------------------------
+	// explicit: the configuration contains sync values of its own; on the wire
+	// their sync responses cannot be told from the injected marker one by one,
+	// the sync clauses for such a stream are in judgeXSync (xsync.go).
+	explicit := len(sc.xsyncs()) > 0
 	syncSeen := 0
 	markAt := -1
 	for k, e := range ems {
@@ -373,9 +377,8 @@ func (sc *Scenario) judge(ems []em, exhausted, wire bool, st *stats) error {
 			if e.mark && markAt < 0 {
 				markAt = k
 			}
-			if wire && !sc.DisableSync {
-				// every sync response is the injected marker (explicit sync
-				// values are only configured together with disable_sync)
+			if wire && !sc.DisableSync && !explicit {
+				// every sync response is the injected marker
 				if syncSeen > 1 {
 					return fmt.Errorf("%s: sync: a second sync response at position %d", where, k)
 				}
@@ -520,7 +523,7 @@ func (sc *Scenario) judge(ems []em, exhausted, wire bool, st *stats) error {
 				return fmt.Errorf("%s: sync: %d sync responses in a complete stream with disable_sync set, explicit sync values are worth %d", where, syncSeen, want)
 			}
 			st.label("clause-sync-disabled-none-injected")
-		} else {
+		} else if !explicit {
 			if exhausted && syncSeen != 1 {
 				return fmt.Errorf("%s: sync: complete stream of %d responses carries %d sync markers, want exactly 1", where, len(ems), syncSeen)
 			}
@@ -529,6 +532,11 @@ func (sc *Scenario) judge(ems []em, exhausted, wire bool, st *stats) error {
 			}
 			if exhausted {
 				st.label("clause-sync-exactly-once")
+			}
+		}
+		if explicit {
+			if xerr := sc.judgeXSync(ems, exhausted, where, st); xerr != nil {
+				return xerr
 			}
 		}
 	}
@@ -869,6 +877,7 @@ func run(sc *Scenario) (st *stats, err error) {
 	}
 	st.wire, st.wireLimit, st.det = sent, limit, det
 	sc.cfgLabels(st)
+	sc.xsyncLabels(st)
 	if det {
 		// ---- same configuration, same seed, observed at the target ---------------------
 		// The Client's generator and the generator built above by queue.New are
@@ -879,6 +888,13 @@ func run(sc *Scenario) (st *stats, err error) {
 			return st, fmt.Errorf("wire: reproducible: the Client's stream is not what queue.New(false, %d, values) emits for the same values and seeds: %v%s", sc.Seed, derr, sc.cfgNote())
 		}
 		st.label("clause-reproducible-client-equals-queue")
+		if len(sc.xsyncs()) > 0 {
+			// ... and with the sync responses left in: the explicit sync values at
+			// the positions the generator gives them, plus the one injected marker
+			if derr := sameStreamWithSyncs(emsW, emsA, sc, ended, a.exhausted, st); derr != nil {
+				return st, fmt.Errorf("wire: sync: reproducible: %v (%s)%s", derr, sc.xsyncString(sc.xsyncs(), sc.latestInitial()), sc.cfgNote())
+			}
+		}
 	}
 	if det && sc.Cfg != nil && sc.Cfg.Gen != GenUnset {
 		// A second Client on a deep-equal Config, a moment later on the
